@@ -1,5 +1,537 @@
 //! Verification hook ops for module `linenum` (see mod.rs for the protocol).
+//!
+//! Exposes the line-number counter machine (`LineNumbersData`, `linenumbers_and_styles` as
+//! reached through `Painter::paint_line`, the side-by-side row loop, the `Painter` buffer
+//! painting path), `format.rs` padding / placeholder parsing and the hunk-header parser.
+//! Every op calls the production functions; nothing is re-implemented here except the few
+//! lines that report *parameters* of the model (wrap row counts per line, the line alignment
+//! chosen by the edit inference).
+use std::io::Write;
 
-pub fn handle(op: &str, _args: &[&str]) -> Result<String, String> {
-    Err(format!("unknown op: linenum.{op}"))
+use syntect::highlighting::Style as SyntectStyle;
+
+use super::{config, hex, num, unhex};
+use crate::ansi;
+use crate::config::Config;
+use crate::delta::{DiffType, State};
+use crate::edits;
+use crate::features::line_numbers::{self, LineNumbersData};
+use crate::features::side_by_side::{self, ansifill, Left, Right};
+use crate::format::{self, Align, Placeholder};
+use crate::handlers::hunk_header;
+use crate::minusplus::*;
+use crate::paint::{self, LineSections, Painter};
+use crate::style::Style;
+use crate::wrapping;
+
+type Alignment = Vec<(Option<usize>, Option<usize>)>;
+
+fn opt_num(f: &str) -> Result<Option<usize>, String> {
+    if f == "-" {
+        Ok(None)
+    } else {
+        num(f).map(Some)
+    }
+}
+
+fn show_opt(n: Option<usize>) -> String {
+    match n {
+        Some(n) => n.to_string(),
+        None => "-".to_string(),
+    }
+}
+
+fn align_of(f: &str) -> Result<Align, String> {
+    match f {
+        "0" => Ok(Align::Left),
+        "1" => Ok(Align::Center),
+        "2" => Ok(Align::Right),
+        _ => Err(format!("bad align: {f}")),
+    }
+}
+
+fn state_of(f: &str) -> Result<State, String> {
+    Ok(match f {
+        "0" => State::HunkMinus(DiffType::Unified, None),
+        "1" => State::HunkMinusWrapped,
+        "2" => State::HunkZero(DiffType::Unified, None),
+        "3" => State::HunkZeroWrapped,
+        "4" => State::HunkPlus(DiffType::Unified, None),
+        "5" => State::HunkPlusWrapped,
+        "6" => State::Unknown,
+        _ => return Err(format!("bad state: {f}")),
+    })
+}
+
+struct Args<'a> {
+    a: &'a [&'a str],
+    i: usize,
+}
+
+impl<'a> Args<'a> {
+    fn next(&mut self) -> Result<&'a str, String> {
+        let f = self.a.get(self.i).ok_or_else(|| "missing field".to_string())?;
+        self.i += 1;
+        Ok(f)
+    }
+    fn num(&mut self) -> Result<usize, String> {
+        num(self.next()?)
+    }
+    fn string(&mut self) -> Result<String, String> {
+        unhex(self.next()?)
+    }
+    fn pairs(&mut self) -> Result<Vec<(usize, usize)>, String> {
+        let n = self.num()?;
+        let mut v = Vec::new();
+        for _ in 0..n {
+            let s = self.num()?;
+            let l = self.num()?;
+            v.push((s, l));
+        }
+        Ok(v)
+    }
+    fn lines(&mut self) -> Result<Vec<String>, String> {
+        let n = self.num()?;
+        let mut v = Vec::new();
+        for _ in 0..n {
+            // as `paint::prepare` leaves them: prefix removed, newline terminated
+            v.push(format!("{}\n", self.string()?));
+        }
+        Ok(v)
+    }
+    fn alignment(&mut self) -> Result<Alignment, String> {
+        let n = self.num()?;
+        let mut v = Vec::new();
+        for _ in 0..n {
+            let m = opt_num(self.next()?)?;
+            let p = opt_num(self.next()?)?;
+            v.push((m, p));
+        }
+        Ok(v)
+    }
+    fn done(&self) -> Result<(), String> {
+        if self.i == self.a.len() {
+            Ok(())
+        } else {
+            Err("trailing fields".to_string())
+        }
+    }
+}
+
+fn new_data(config: &'static Config) -> LineNumbersData<'static> {
+    // exactly as Painter::new does when config.line_numbers
+    LineNumbersData::from_format_strings(
+        &config.line_numbers_format,
+        ansifill::UseFullPanelWidth::new(config),
+    )
+}
+
+fn rows_of(buf: &str) -> Vec<String> {
+    let stripped = ansi::strip_ansi_codes(buf);
+    let mut rows: Vec<String> = stripped.split('\n').map(|s| s.to_string()).collect();
+    if rows.last().map(|s| s.is_empty()).unwrap_or(false) {
+        rows.pop();
+    }
+    rows
+}
+
+fn show_rows(rows: &[String]) -> String {
+    let mut out = format!("{}", rows.len());
+    for r in rows {
+        out.push(' ');
+        out.push_str(&hex(r));
+    }
+    out
+}
+
+fn show_alignment(al: &Alignment) -> String {
+    let mut out = format!("{}", al.len());
+    for (m, p) in al {
+        out.push_str(&format!(" {} {}", show_opt(*m), show_opt(*p)));
+    }
+    out
+}
+
+fn show_counts(v: &[usize]) -> String {
+    let mut out = format!("{}", v.len());
+    for n in v {
+        out.push_str(&format!(" {n}"));
+    }
+    out
+}
+
+fn rows_per_line(states: &[State]) -> Vec<usize> {
+    let mut v: Vec<usize> = Vec::new();
+    for s in states {
+        match s {
+            State::HunkMinusWrapped | State::HunkPlusWrapped | State::HunkZeroWrapped => {
+                if let Some(last) = v.last_mut() {
+                    *last += 1
+                }
+            }
+            _ => v.push(1),
+        }
+    }
+    v
+}
+
+fn simple_sections<'a>(
+    lines: &'a [(String, State)],
+    style: Style,
+) -> Vec<LineSections<'a, Style>> {
+    lines.iter().map(|(l, _)| vec![(style, l.as_str())]).collect()
+}
+
+/// Number of display rows of each minus / plus line of a block (a parameter of the model:
+/// wrapping itself is the subject of another property). Uses the production predicates and
+/// `wrap_minusplus_block`.
+fn wrap_counts(
+    lines: &MinusPlus<&Vec<(String, State)>>,
+    alignment: &Alignment,
+    data: &LineNumbersData,
+    config: &'static Config,
+) -> MinusPlus<Vec<usize>> {
+    let ones = MinusPlus::new(vec![1; lines[Minus].len()], vec![1; lines[Plus].len()]);
+    if config.wrap_config.max_lines == 1 {
+        return ones;
+    }
+    let line_width = side_by_side::available_line_width(config, data);
+    let (should_wrap, long_lines) = side_by_side::has_long_lines(lines, &line_width);
+    if !should_wrap {
+        return ones;
+    }
+    let syntax: MinusPlus<Vec<LineSections<SyntectStyle>>> = MinusPlus::new(
+        paint::get_syntax_style_sections_for_lines(lines[Minus], None, config),
+        paint::get_syntax_style_sections_for_lines(lines[Plus], None, config),
+    );
+    let diff = MinusPlus::new(
+        simple_sections(lines[Minus], config.minus_style),
+        simple_sections(lines[Plus], config.plus_style),
+    );
+    let (_, states, _, _) =
+        wrapping::wrap_minusplus_block(config, syntax, diff, alignment, &line_width, &long_lines);
+    MinusPlus::new(rows_per_line(&states[Left]), rows_per_line(&states[Right]))
+}
+
+fn zero_wrap_count(line: &str, data: &mut LineNumbersData, config: &'static Config) -> usize {
+    let lines = vec![(line.to_string(), State::HunkZero(DiffType::Unified, None))];
+    let syntax = paint::get_syntax_style_sections_for_lines(&lines, None, config);
+    let diff = simple_sections(&lines, config.zero_style);
+    let (states, _, _) = wrapping::wrap_zero_block(
+        config,
+        line,
+        vec![State::HunkZero(DiffType::Unified, None)],
+        syntax,
+        diff,
+        &Some(data),
+    );
+    states.len()
+}
+
+pub fn handle(op: &str, args: &[&str]) -> Result<String, String> {
+    let config = config();
+    let mut a = Args { a: args, i: 0 };
+    match op {
+        // linenum.pad <n> <width> <align 0|1|2> <precision|->  ->  ok x<field>
+        "pad" => {
+            let n = a.num()?;
+            let width = a.num()?;
+            let align = align_of(a.next()?)?;
+            let precision = opt_num(a.next()?)?;
+            a.done()?;
+            Ok(format!("ok {}", hex(&format::pad(n, width, align, precision))))
+        }
+        // linenum.config -> ok <side_by_side 0|1> <line_numbers 0|1> x<left format> x<right format>
+        "config" => {
+            a.done()?;
+            Ok(format!(
+                "ok {} {} {} {}",
+                config.side_by_side as usize,
+                config.line_numbers as usize,
+                hex(&config.line_numbers_format[Left]),
+                hex(&config.line_numbers_format[Right])
+            ))
+        }
+        // linenum.log10 <n> -> ok <log10_plus_1(n)>
+        "log10" => {
+            let n = a.num()?;
+            a.done()?;
+            Ok(format!("ok {}", format::log10_plus_1(n)))
+        }
+        // linenum.parse_format x<fmt> <prefix_with_space 0|1>
+        //   -> ok <k> { x<prefix> <prefix_len> <ph 0 none|1 nm|2 np|3 other> <align|-> <width|->
+        //               <precision|-> x<fmt_type> x<suffix> <suffix_len> }*
+        "parse_format" => {
+            let fmt = a.string()?;
+            let pws = a.num()? != 0;
+            a.done()?;
+            let regex = format::make_placeholder_regex(&["nm", "np"]);
+            let data = format::parse_line_number_format(&fmt, &regex, pws);
+            let mut out = format!("ok {}", data.len());
+            for p in &data {
+                let ph = match p.placeholder {
+                    None => 0,
+                    Some(Placeholder::NumberMinus) => 1,
+                    Some(Placeholder::NumberPlus) => 2,
+                    Some(Placeholder::Str(_)) => 3,
+                };
+                let al = match p.alignment_spec {
+                    None => "-".to_string(),
+                    Some(Align::Left) => "0".to_string(),
+                    Some(Align::Center) => "1".to_string(),
+                    Some(Align::Right) => "2".to_string(),
+                };
+                out.push_str(&format!(
+                    " {} {} {} {} {} {} {} {} {}",
+                    hex(&p.prefix),
+                    p.prefix_len,
+                    ph,
+                    al,
+                    show_opt(p.width),
+                    show_opt(p.precision),
+                    hex(&p.fmt_type),
+                    hex(&p.suffix),
+                    p.suffix_len
+                ));
+            }
+            Ok(out)
+        }
+        // linenum.hunk_header x<line> -> ok none | ok x<code fragment> <k> {<start> <len>}*
+        "hunk_header" => {
+            let line = a.string()?;
+            a.done()?;
+            match hunk_header::verif_linenum_parse_hunk_header(&line) {
+                None => Ok("ok none".to_string()),
+                Some((frag, pairs)) => {
+                    let mut out = format!("ok {} {}", hex(&frag), pairs.len());
+                    for (s, l) in pairs {
+                        out.push_str(&format!(" {s} {l}"));
+                    }
+                    Ok(out)
+                }
+            }
+        }
+        // linenum.machine <k> {<start> <len>}* <j> {<state 0..6> <panel 0 none|1 left|2 right>}*
+        //   initialize_hunk, then Painter::paint_line (empty text) for each step.
+        //   -> ok <hunk_max_line_number_width> <j> {x<gutter text>}* <left> <right>
+        "machine" => {
+            let pairs = a.pairs()?;
+            let j = a.num()?;
+            let mut steps = Vec::new();
+            for _ in 0..j {
+                let st = state_of(a.next()?)?;
+                let panel = match a.next()? {
+                    "0" => None,
+                    "1" => Some(Left),
+                    "2" => Some(Right),
+                    f => return Err(format!("bad panel: {f}")),
+                };
+                steps.push((st, panel));
+            }
+            a.done()?;
+            let mut data = new_data(config);
+            data.initialize_hunk(&pairs, "f".to_string());
+            let mut gutters = Vec::new();
+            for (st, panel) in &steps {
+                let (s, _) =
+                    Painter::paint_line(&[], &[], st, &mut Some(&mut data), *panel, None, config);
+                gutters.push(ansi::strip_ansi_codes(&s));
+            }
+            Ok(format!(
+                "ok {} {} {} {}",
+                data.hunk_max_line_number_width,
+                show_rows(&gutters),
+                data.line_number[Left],
+                data.line_number[Right]
+            ))
+        }
+        // linenum.sbs_block <pairs> <nm> {x<minus line>}* <np> {x<plus line>}* <na> {<mi|-> <pi|->}*
+        //   one subhunk through side_by_side::paint_minus_and_plus_lines_side_by_side with the
+        //   given alignment.
+        //   -> ok <rows> <wrapsL> <wrapsR> <left> <right> <lw> <rw> <panel_left> <panel_right>
+        "sbs_block" => {
+            let pairs = a.pairs()?;
+            let minus: Vec<(String, State)> = a
+                .lines()?
+                .into_iter()
+                .map(|l| (l, State::HunkMinus(DiffType::Unified, None)))
+                .collect();
+            let plus: Vec<(String, State)> = a
+                .lines()?
+                .into_iter()
+                .map(|l| (l, State::HunkPlus(DiffType::Unified, None)))
+                .collect();
+            let alignment = a.alignment()?;
+            a.done()?;
+            let mut data = Some(new_data(config));
+            data.as_mut().unwrap().initialize_hunk(&pairs, "f".to_string());
+            let lines = MinusPlus::new(&minus, &plus);
+            let wraps = wrap_counts(&lines, &alignment, data.as_ref().unwrap(), config);
+            let fw = data.as_ref().unwrap().formatted_width();
+            let syntax = MinusPlus::new(
+                paint::get_syntax_style_sections_for_lines(&minus, None, config),
+                paint::get_syntax_style_sections_for_lines(&plus, None, config),
+            );
+            let diff = MinusPlus::new(
+                simple_sections(&minus, config.minus_style),
+                simple_sections(&plus, config.plus_style),
+            );
+            let homolog = edits::make_lines_have_homolog(&alignment);
+            let mut buf = String::new();
+            side_by_side::paint_minus_and_plus_lines_side_by_side(
+                MinusPlus::new(&minus, &plus),
+                syntax,
+                diff,
+                homolog,
+                alignment,
+                &mut data,
+                &mut buf,
+                config,
+            );
+            let d = data.as_ref().unwrap();
+            Ok(format!(
+                "ok {} {} {} {} {} {} {} {} {}",
+                show_rows(&rows_of(&buf)),
+                show_counts(&wraps[Left]),
+                show_counts(&wraps[Right]),
+                d.line_number[Left],
+                d.line_number[Right],
+                fw[Left],
+                fw[Right],
+                config.side_by_side_data[Left].width,
+                config.side_by_side_data[Right].width
+            ))
+        }
+        // linenum.blocks <pairs> <nb> { 0 x<zero line> | 1 <nm> {x<minus>}* <np> {x<plus>}* }*
+        //   a whole hunk through a real Painter: initialize_hunk, then per block
+        //   Painter::paint_zero_line or (buffer the lines,) Painter::paint_buffered_minus_and_plus_lines.
+        //   -> ok <nb> { 0 <rows> <wrap rows> | 1 <rows> <alignment> <wrapsL> <wrapsR> }* <left> <right>
+        //         <lw> <rw> <panel_left> <panel_right>
+        "blocks" => {
+            let pairs = a.pairs()?;
+            let nb = a.num()?;
+            enum B {
+                Zero(String),
+                Sub(Vec<String>, Vec<String>),
+            }
+            let mut blocks = Vec::new();
+            for _ in 0..nb {
+                match a.next()? {
+                    "0" => blocks.push(B::Zero(format!("{}\n", a.string()?))),
+                    "1" => {
+                        let m = a.lines()?;
+                        let p = a.lines()?;
+                        blocks.push(B::Sub(m, p))
+                    }
+                    f => return Err(format!("bad block kind: {f}")),
+                }
+            }
+            a.done()?;
+            let mut sink: Vec<u8> = Vec::new();
+            let writer: &mut dyn Write = &mut sink;
+            let mut painter = Painter::new(writer, config);
+            if painter.line_numbers_data.is_none() {
+                return Err("config has neither line-numbers nor side-by-side".to_string());
+            }
+            painter
+                .line_numbers_data
+                .as_mut()
+                .unwrap()
+                .initialize_hunk(&pairs, "f".to_string());
+            let fw = painter.line_numbers_data.as_ref().unwrap().formatted_width();
+            let mut out = format!("ok {nb}");
+            for b in blocks {
+                painter.output_buffer.clear();
+                match b {
+                    B::Zero(line) => {
+                        let wr = if config.side_by_side {
+                            zero_wrap_count(
+                                &line,
+                                painter.line_numbers_data.as_mut().unwrap(),
+                                config,
+                            )
+                        } else {
+                            1
+                        };
+                        painter.paint_zero_line(&line, State::HunkZero(DiffType::Unified, None));
+                        out.push_str(&format!(
+                            " 0 {} {}",
+                            show_rows(&rows_of(&painter.output_buffer)),
+                            wr
+                        ));
+                    }
+                    B::Sub(m, p) => {
+                        for l in m {
+                            painter
+                                .minus_lines
+                                .push((l, State::HunkMinus(DiffType::Unified, None)));
+                        }
+                        for l in p {
+                            painter
+                                .plus_lines
+                                .push((l, State::HunkPlus(DiffType::Unified, None)));
+                        }
+                        let alignment = paint::verif_linenum_line_alignment(
+                            &MinusPlus::new(&painter.minus_lines, &painter.plus_lines),
+                            config,
+                        );
+                        let wraps = if config.side_by_side {
+                            wrap_counts(
+                                &MinusPlus::new(&painter.minus_lines, &painter.plus_lines),
+                                &alignment,
+                                painter.line_numbers_data.as_ref().unwrap(),
+                                config,
+                            )
+                        } else {
+                            MinusPlus::new(
+                                vec![1; painter.minus_lines.len()],
+                                vec![1; painter.plus_lines.len()],
+                            )
+                        };
+                        painter.paint_buffered_minus_and_plus_lines();
+                        out.push_str(&format!(
+                            " 1 {} {} {} {}",
+                            show_rows(&rows_of(&painter.output_buffer)),
+                            show_alignment(&alignment),
+                            show_counts(&wraps[Left]),
+                            show_counts(&wraps[Right])
+                        ));
+                    }
+                }
+            }
+            let d = painter.line_numbers_data.as_ref().unwrap();
+            out.push_str(&format!(
+                " {} {} {} {} {} {}",
+                d.line_number[Left],
+                d.line_number[Right],
+                fw[Left],
+                fw[Right],
+                config.side_by_side_data[Left].width,
+                config.side_by_side_data[Right].width
+            ));
+            Ok(out)
+        }
+        // linenum.numbers <state> <increment 0|1> <left> <right>
+        //   linenumbers_and_styles alone -> ok none | ok <minus|-> <plus|-> <left'> <right'>
+        "numbers" => {
+            let st = state_of(a.next()?)?;
+            let inc = a.num()? != 0;
+            let l = a.num()?;
+            let r = a.num()?;
+            a.done()?;
+            let mut data = new_data(config);
+            data.line_number = MinusPlus::new(l, r);
+            match line_numbers::linenumbers_and_styles(&mut data, &st, config, inc) {
+                None => Ok("ok none".to_string()),
+                Some((nums, _)) => Ok(format!(
+                    "ok {} {} {} {}",
+                    show_opt(nums[Minus]),
+                    show_opt(nums[Plus]),
+                    data.line_number[Left],
+                    data.line_number[Right]
+                )),
+            }
+        }
+        _ => Err(format!("unknown op: linenum.{op}")),
+    }
 }
